@@ -434,6 +434,27 @@ impl Parser {
             )]);
         }
 
+        // `nil` and `[]` (also nested: `[nil]`, `[[]]`) do not say which optional / which list they are:
+        // their type is compatible with all of them. Under a name, one such value could be used as a
+        // `[int...]` here and as a `[str...]` there.
+        if let Some(ident) = x
+            .idents
+            .iter()
+            .find(|ident| ident.ty().is_ok_and(|ty| ty.is_undetermined()))
+        {
+            return Err(vec![new_err(
+                name_span,
+                &input.user_data().get_source_file_name(),
+                format!(
+                    "the type of `{}` cannot be inferred: this value has the type `{}`, which leaves the type of a `nil` or of the elements of an empty list open\n\t+ hint: give the name an explicit type, like `{}: [int...] = []` or `{}: [int?...] = [nil]`",
+                    ident.name(),
+                    ident.ty().unwrap(),
+                    ident.name(),
+                    ident.name(),
+                ),
+            )]);
+        }
+
         if !x.is_unpack {
             let ident_ty = x.idents[0].ty().unwrap();
             if let Some(list_type) = ident_ty.is_list() {
